@@ -828,11 +828,48 @@ def rule_list_positions(chk, fb, rid="C02.c.pos"):
         C11.positional(chk, fb, r, d, lambda at, ps=tuple(params): any(a[0] == "arg" and a[1] in ps for a in at) and not any(a[0] == "call" and a[1] in fb.mir for a in at), d.split("::", 1)[-1], what="list entry")
 
 
+def rule_charts_first(chk, fb, rid="C02.c.charts"):
+    """The drawing relationships writer numbers the chart parts 1..n on its own and the remaining entries by their
+    position in the list: that only agrees with the ids the drawing part wrote if the chart anchors are the first to
+    register in the list."""
+    from cfg import CFG
+
+    r = chk.rule(
+        rid,
+        "chart anchors register first: in the drawing part's writer, the loop over the chart collection comes before every other call that is handed the relationship list (the relationships writer gives charts the ids 1..n)",
+        floor=1,
+    )
+    for d, b in sorted(fb.mir.items()):
+        if not d.endswith("WorksheetDrawing::write_to"):
+            continue
+        fl = Flow(fb, b)
+        cfg = CFG(b)
+        LIST = "&mut std::vec::Vec<(std::string::String, std::string::String)>"
+        lp = [i for i in range(1, b["argc"] + 1) if fb.ty(b["locals"][i]["t"]) == LIST]
+        if not lp:
+            continue
+        takers = [(bi, t) for bi, t in fl.calls() if t.get("fn", "") in fb.mir and any(("arg", lp[0]) in fl.atoms(a, through_calls=False) for a in t["args"])]
+        chart = [bi for bi, t in takers if any(x[0] == "field" and x[2] == "chart_collection" for a in t["args"] for x in fl.atoms(a))]
+        others = [bi for bi, t in takers if bi not in chart]
+        chk.touch(d)
+        # every other taker is reachable only through (after) the chart loop header
+        heads = set()
+        for tl, h in cfg.back_edges():
+            body = cfg.natural_loop(tl, h)
+            if any(c in body for c in chart):
+                heads.add(h)
+        ok = bool(heads) and all(any(cfg.dominates(h, o) for h in heads) for o in others)
+        chk.ob(r, "WorksheetDrawing::write_to", ok, where=fb.loc(d), detail="%d call(s) register chart anchors, %d register other anchors; all others come after the chart loop: %s" % (len(chart), len(others), ok))
+
+
 def run(chk, fb, tier):
     rule_content_types(chk, fb)
     rule_targets(chk, fb)
     rule_rid_pairs(chk, fb)
     rule_list_positions(chk, fb)
+    symmetry.rule_swapped_args(chk, fb, "C02.n")
+    symmetry.rule_positional_tables(chk, fb, "C02.o")
+    rule_charts_first(chk, fb)
     rule_unordered_once(chk, fb)
     rule_order(chk, fb)
     rule_rows(chk, fb)
